@@ -113,3 +113,170 @@ package sev
 //@   loop 1 assigns data[1008:1648][*]
 //@   loop 1 invariant 1008 <= i && i <= 1648 && forall(k, 1008 <= k && k < i ==> bytesAt(data, k) == 0)
 //@   loop 1 decreases[C08] 1648 - i
+
+// ---- C04/C08: the launch digest as a trace of SNP_LAUNCH_UPDATE pages (ghost ldN/ldType/ldGpa/ldData,
+// /verif/stubs/endorse_ifaces.spec). Page types: NORMAL 1, VMSA 2, ZERO 3, UNMEASURED 4, SECRETS 5, CPUID 6. ----
+
+// MILAN (1) has 48 guest-physical address bits, GENOA (2) 52; the highest page-aligned GPA is 2^bits - 4096.
+//@ func ProductHighAddress
+//@   assigns nothing
+//@   sweep[C08]
+// (assumed: the bit widths come from a package-level map whose initialiser is not modelled, shifted by a variable)
+//@   ensures[assume] product == 1 ==> result == 281474976706560
+//@   ensures[assume] product == 2 ==> result == 4503599627366400
+//@   ensures[assume] product != 1 && product != 2 ==> result == 0
+
+// PAGE_INFO without contents: current digest, LENGTH 0x70, page type, GPA; contents, IMI and VMPL permissions zero.
+//@ func infoWithoutContents
+//@   requires len(digestCur) == 48
+//@   assigns nothing
+//@   sweep[C08]
+//@   ensures[C04] result.length == 112 && result.pageType == pageType && result.gpa == gpa && result.imi == 0 && result.vmpl1Perms == 0 && result.vmpl2Perms == 0 && result.vmpl3Perms == 0
+//@   ensures[C04] forall(i, 0 <= i && i < 48 ==> result.digestCur[i] == bytesAt(digestCur, i) && result.contents[i] == 0)
+
+//@ func putPageInfoDigest
+//@   requires info != nil && len(out) == 48
+//@   assigns out[*]
+//@   sweep[C08]
+//@   alloc 512
+//@   ensures[C04] err == nil
+
+//@ func (*SnpMeasurement).Update4K
+//@   requires m != nil
+//@   assigns m.Digest
+//@   sweep[C08]
+//@   alloc 1024
+//@   ghostset ldType = store(ldType, ldN, pageType)
+//@   ghostset ldGpa = store(ldGpa, ldN, gpa)
+//@   ghostset ldData = store(ldData, ldN, val(data))
+//@   ghostset ldN = ldN + 1
+//@   ensures[C04] err == nil
+
+//@ func (*SnpMeasurement).ZeroContentUpdate4K
+//@   requires m != nil
+//@   assigns m.Digest
+//@   sweep[C08]
+//@   alloc 1024
+//@   ghostset ldType = store(ldType, ldN, pageType)
+//@   ghostset ldGpa = store(ldGpa, ldN, gpa)
+//@   ghostset ldData = store(ldData, ldN, noData())
+//@   ghostset ldN = ldN + 1
+//@   ensures[C04] err == nil
+
+//@ func (*SnpMeasurement).checkUpdateDataGuestMemoryAlignment
+//@   requires m != nil && alignment == 4096
+//@   assigns nothing
+//@   sweep[C08]
+//@   ensures[C04] m.Product == 1 || m.Product == 2 ==> (err == nil <==> guestUaddr % 4096 == 0 && guestLen % 4096 == 0 && guestUaddr + guestLen <= ite(m.Product == 1, 281474976710656, 4503599627370496))
+//@   ensures[C04] err == nil ==> guestUaddr % 4096 == 0 && guestLen % 4096 == 0
+
+// Update measures data as len(data)/4096 consecutive pages of the given type, ascending from gpa.
+//@ func (*SnpMeasurement).Update
+//@   requires m != nil && len(data) < 4294967296 && (m.Product == 1 || m.Product == 2)
+//@   assigns m.Digest
+//@   modifies ldN, ldType, ldGpa, ldData
+//@   sweep[C08]
+//@   alloc 1024 * (len(data) / 4096) + 4096
+//@   ghostparam a Int
+//@   ensures[C04] err == nil <==> gpa % 4096 == 0 && len(data) % 4096 == 0 && gpa + len(data) <= ite(m.Product == 1, 281474976710656, 4503599627370496)
+//@   ensures[C04] err == nil ==> ldN == old(ldN) + len(data) / 4096
+//@   ensures[C04] err == nil && 0 <= a && a < len(data) / 4096 ==> ldType[old(ldN) + a] == pageType && ldGpa[old(ldN) + a] == gpa + 4096 * a && ldData[old(ldN) + a] == val(data[4096*a : 4096*a + 4096])
+//@   ensures[C04] err != nil ==> ldN == old(ldN)
+//@   ensures[C04] forall(j, Int, j < old(ldN) ==> ldType[j] == old(ldType)[j] && ldGpa[j] == old(ldGpa)[j] && ldData[j] == old(ldData)[j])
+//@   loop 1 invariant 0 <= page4k && page4k <= len(data) && page4k % 4096 == 0 && ldN == old(ldN) + page4k / 4096 && alloc <= 2048 + 1024 * (page4k / 4096)
+//@   loop 1 invariant 0 <= a && 4096 * a < page4k ==> ldType[old(ldN) + a] == pageType && ldGpa[old(ldN) + a] == gpa + 4096 * a && ldData[old(ldN) + a] == val(data[4096*a : 4096*a + 4096])
+//@   loop 1 invariant forall(j, Int, j < old(ldN) ==> ldType[j] == old(ldType)[j] && ldGpa[j] == old(ldGpa)[j] && ldData[j] == old(ldData)[j])
+//@   loop 1 decreases[C08] len(data) - page4k
+
+// ZeroContentUpdate measures size/4096 pages without contents (types ZERO, UNMEASURED, SECRETS, CPUID only).
+//@ func (*SnpMeasurement).ZeroContentUpdate
+//@   requires m != nil && (m.Product == 1 || m.Product == 2)
+//@   assigns m.Digest
+//@   modifies ldN, ldType, ldGpa, ldData
+//@   sweep[C08]
+//@   alloc 1024 * (size / 4096) + 4096
+//@   ghostparam a Int
+//@   ensures[C04] err == nil <==> 3 <= pageType && pageType <= 6 && gpa % 4096 == 0 && size % 4096 == 0 && gpa + size <= ite(m.Product == 1, 281474976710656, 4503599627370496)
+//@   ensures[C04] err == nil ==> ldN == old(ldN) + size / 4096
+//@   ensures[C04] err == nil && 0 <= a && a < size / 4096 ==> ldType[old(ldN) + a] == pageType && ldGpa[old(ldN) + a] == gpa + 4096 * a && ldData[old(ldN) + a] == noData()
+//@   ensures[C04] err != nil ==> ldN == old(ldN)
+//@   ensures[C04] forall(j, Int, j < old(ldN) ==> ldType[j] == old(ldType)[j] && ldGpa[j] == old(ldGpa)[j] && ldData[j] == old(ldData)[j])
+//@   loop 1 invariant gpa <= page4k && page4k <= gpa + size && page4k % 4096 == 0 && ldN == old(ldN) + (page4k - gpa) / 4096 && alloc <= 2048 + 1024 * ((page4k - gpa) / 4096)
+//@   loop 1 invariant 0 <= a && gpa + 4096 * a < page4k ==> ldType[old(ldN) + a] == pageType && ldGpa[old(ldN) + a] == gpa + 4096 * a && ldData[old(ldN) + a] == noData()
+//@   loop 1 invariant forall(j, Int, j < old(ldN) ==> ldType[j] == old(ldType)[j] && ldGpa[j] == old(ldGpa)[j] && ldData[j] == old(ldData)[j])
+//@   loop 1 decreases[C08] gpa + size - page4k
+
+// The metadata sections are measured in declared order, each as ZeroContentUpdate(address, length, type) with the
+// kind-to-type mapping unmeasured(1)->UNMEASURED(4), secrets(2)->SECRETS(5), CPUID(3)->CPUID(6), SVSM CAA(4)->ZERO(3);
+// an unknown kind is refused.
+//@ func measureZeroContentUefiPages
+//@   requires data != nil && len(data.snpMetadataSections) < 17592186044416 && measurement != nil && (measurement.Product == 1 || measurement.Product == 2)
+//@   assigns measurement.Digest
+//@   modifies ldN, ldType, ldGpa, ldData
+//@   sweep[C08]
+//@   atcall[C04] ZeroContentUpdate requires p1 == section.Address && p2 == section.Length && p3 == ite(section.Kind == 1, 4, ite(section.Kind == 2, 5, ite(section.Kind == 3, 6, 3))) && 1 <= section.Kind && section.Kind <= 4
+//@   ensures[C04] ldN >= old(ldN) && forall(j, Int, j < old(ldN) ==> ldType[j] == old(ldType)[j] && ldGpa[j] == old(ldGpa)[j] && ldData[j] == old(ldData)[j])
+//@   ensures[C04] forall(j, Int, old(ldN) <= j && j < ldN ==> 3 <= ldType[j] && ldType[j] <= 6 && ldData[j] == noData())
+//@   loop 1 invariant ldN >= old(ldN) && forall(j, Int, j < old(ldN) ==> ldType[j] == old(ldType)[j] && ldGpa[j] == old(ldGpa)[j] && ldData[j] == old(ldData)[j])
+//@   loop 1 invariant forall(j, Int, old(ldN) <= j && j < ldN ==> 3 <= ldType[j] && ldType[j] <= 6 && ldData[j] == noData())
+
+// The ROM is measured first, as NORMAL pages ending at 4 GiB, in ascending order; the metadata sections follow.
+//@ func measureUefi
+//@   requires data != nil && len(data.snpMetadataSections) < 17592186044416 && measurement != nil && len(uefi) < 4294967296 && (measurement.Product == 1 || measurement.Product == 2)
+//@   assigns measurement.Digest
+//@   modifies ldN, ldType, ldGpa, ldData
+//@   sweep[C08]
+//@   ghostparam a Int
+//@   ensures[C04] err == nil ==> len(uefi) % 4096 == 0 && ldN >= old(ldN) + len(uefi) / 4096
+//@   ensures[C04] err == nil && 0 <= a && a < len(uefi) / 4096 ==> ldType[old(ldN) + a] == 1 && ldGpa[old(ldN) + a] == 4294967296 - len(uefi) + 4096 * a && ldData[old(ldN) + a] == val(uefi[4096*a : 4096*a + 4096])
+//@   ensures[C04] err == nil ==> forall(j, Int, old(ldN) + len(uefi) / 4096 <= j && j < ldN ==> 3 <= ldType[j] && ldType[j] <= 6 && ldData[j] == noData())
+//@   ensures[C04] forall(j, Int, j < old(ldN) ==> ldType[j] == old(ldType)[j] && ldGpa[j] == old(ldGpa)[j] && ldData[j] == old(ldData)[j])
+
+// One VMSA page per entry, all at the product's highest page, each holding PutVmsa's encoding of that entry.
+// (PutVmsa creates absent segment messages inside the caller's VMSAs, so no assigns clause is stated: callers see
+// the arguments' direct referents as changed.)
+//@ func measureVmsa
+//@   requires measurement != nil && opts != nil && measurement.Product == opts.Product && (opts.Product == 1 || opts.Product == 2) && len(expectedVmsas) < 1048576
+//@   requires forall(k, 0 <= k && k < len(expectedVmsas) ==> expectedVmsas[k] != nil)
+//@   modifies ldN, ldType, ldGpa, ldData
+//@   sweep[C08]
+//@   alloc 8192 * len(expectedVmsas) + 4096
+//@   atcall[C04] Update requires p1 == ite(opts.Product == 1, 281474976706560, 4503599627366400) && p3 == 2 && len(p2) == 4096 && le64(p2, 376) == vmsa.Rip && vmsa.Cs != nil && le64(p2, 24) == vmsa.Cs.Base && le64(p2, 1000) == vmsa.Xcr0 && le64(p2, 944) == vmsa.SevFeatures
+//@   ensures[C04] err == nil ==> ldN == old(ldN) + len(expectedVmsas)
+//@   ensures[C04] err == nil ==> forall(j, Int, old(ldN) <= j && j < ldN ==> ldType[j] == 2 && ldGpa[j] == ite(old(opts.Product) == 1, 281474976706560, 4503599627366400))
+//@   ensures[C04] forall(j, Int, j < old(ldN) ==> ldType[j] == old(ldType)[j] && ldGpa[j] == old(ldGpa)[j] && ldData[j] == old(ldData)[j])
+//@   loop 1 invariant ldN == old(ldN) + rangeindex + 1 && alloc <= 2048 + 8192 * (rangeindex + 1)
+//@   loop 1 invariant forall(j, Int, old(ldN) <= j && j < ldN ==> ldType[j] == 2 && ldGpa[j] == ite(opts.Product == 1, 281474976706560, 4503599627366400))
+//@   loop 1 invariant forall(j, Int, j < old(ldN) ==> ldType[j] == old(ldType)[j] && ldGpa[j] == old(ldGpa)[j] && ldData[j] == old(ldData)[j])
+//@   loop 1 invariant forall(k, 0 <= k && k < len(expectedVmsas) ==> expectedVmsas[k] != nil)
+
+// prepareVmsas: the boot processor's VMSA is the reset-state template; every additional vCPU gets a copy whose
+// CS base / RIP are the high / low 16 bits of the SEV-ES reset block's address.
+//@ func prepareVmsas
+//@   assigns nothing
+//@   requires options != nil && data != nil && options.Vcpus >= 1 && options.Vcpus < 1048576
+//@   modifies pbsrc, pbok
+//@   sweep[C08]
+//@   alloc 256 * options.Vcpus + 65536
+//@   ghostparam a Int
+//@   ensures[C04] err == nil ==> len(result0) == options.Vcpus
+//@   ensures[C04] err == nil && 0 <= a && a < len(result0) ==> result0[a] != nil
+//@   ensures[C04] err == nil && 1 <= a && a < len(result0) ==> data.sevEsResetBlock != nil && result0[a].Cs != nil && result0[a].Cs.Base == data.sevEsResetBlock.Addr - data.sevEsResetBlock.Addr % 65536 && result0[a].Rip == data.sevEsResetBlock.Addr % 65536
+//@   loop 1 invariant 0 <= i && i <= options.Vcpus - 1 && len(expectedVmsas) == i + 1 && fresh(expectedVmsas) && alloc <= 32768 + 64 * (i + 1)
+//@   loop 1 invariant 0 <= a && a < len(expectedVmsas) ==> expectedVmsas[a] != nil
+//@   loop 1 invariant 1 <= a && a < len(expectedVmsas) ==> expectedVmsas[a] == next
+//@   loop 1 decreases[C08] options.Vcpus - 1 - i
+
+// LaunchDigest: the launch-update trace is: the ROM as NORMAL pages ending at 4 GiB in ascending order; then the
+// metadata sections' pages without contents; then options.Vcpus VMSA pages at the product's highest page.
+//@ func LaunchDigest
+//@   requires options != nil && len(serializedUefi) < 2147483648 && options.Vcpus < 1048576 && (options.Product == 1 || options.Product == 2)
+//@   modifies ldN, ldType, ldGpa, ldData, pbsrc, pbok
+//@   sweep[C08]
+//@   ghostparam a Int
+//@   ensures[C04] err == nil ==> old(options.Vcpus) >= 1 && len(serializedUefi) % 4096 == 0 && ldN >= old(ldN) + len(serializedUefi) / 4096 + old(options.Vcpus) && len(result0) == 48
+//@   ensures[C04] err == nil && 0 <= a && a < len(serializedUefi) / 4096 ==> ldType[old(ldN) + a] == 1 && ldGpa[old(ldN) + a] == 4294967296 - len(serializedUefi) + 4096 * a && ldData[old(ldN) + a] == val(serializedUefi[4096*a : 4096*a + 4096])
+//@   ensures[C04] err == nil ==> forall(j, Int, old(ldN) + len(serializedUefi) / 4096 <= j && j < ldN - old(options.Vcpus) ==> 3 <= ldType[j] && ldType[j] <= 6 && ldData[j] == noData())
+//@   ensures[C04] err == nil ==> forall(j, Int, ldN - old(options.Vcpus) <= j && j < ldN ==> ldType[j] == 2 && ldGpa[j] == ite(old(options.Product) == 1, 281474976706560, 4503599627366400))
+//@   ensures[C04] forall(j, Int, j < old(ldN) ==> ldType[j] == old(ldType)[j] && ldGpa[j] == old(ldGpa)[j] && ldData[j] == old(ldData)[j])
+//@   ensures[C04] val(serializedUefi) == old(val(serializedUefi))
